@@ -443,6 +443,10 @@ impl Report {
 
     /// Print VIOLATION / KNOWN-FINDING lines, write replays and evidence, return the exit code.
     pub fn finish(mut self) -> i32 {
+        if DEADLINE_CUT.load(std::sync::atomic::Ordering::Relaxed) {
+            self.cov("capped", serde_json::json!("wall-clock budget reached inside an oracle (remaining crash images of some transitions were not judged)"));
+            self.cov("exhaustive", serde_json::json!(false));
+        }
         if crate::util::DEBUG_PANICKED.load(std::sync::atomic::Ordering::Relaxed) {
             self.cov("state_fingerprint_degraded", serde_json::json!("the Debug output of the VolumeManager panicked or no longer shows the cached chain position; states were told apart by medium, model and whatever Debug still shows"));
         }
@@ -523,6 +527,23 @@ impl Report {
 pub fn machinery_fail(msg: &str) -> ! {
     eprintln!("MACHINERY FAILURE (not a verdict): {}", msg);
     std::process::exit(2)
+}
+
+/// Wall-clock deadline of the running check (set by the history driver); oracles with long inner loops (one remount
+/// per crash image) stop judging further images once it has passed, so that a tree on which every image is
+/// pathologically expensive cannot keep a check running for hours.
+pub static GLOBAL_DEADLINE: std::sync::Mutex<Option<Instant>> = std::sync::Mutex::new(None);
+pub static DEADLINE_CUT: std::sync::atomic::AtomicBool = std::sync::atomic::AtomicBool::new(false);
+
+pub fn past_deadline() -> bool {
+    let d = *GLOBAL_DEADLINE.lock().unwrap();
+    match d {
+        Some(t) if Instant::now() > t => {
+            DEADLINE_CUT.store(true, std::sync::atomic::Ordering::Relaxed);
+            true
+        }
+        _ => false,
+    }
 }
 
 /// Does the scenario's prelude run as the model expects? If not: (signature, detail) of the first step that does not.
